@@ -83,6 +83,7 @@ def zoo_task(t):
             case["cache_filled_under_no_grad"] = bool(uc and mode == "eval" and hascache and hist != "fresh")
 
             def loss_fn(xv, cv):
+                torch.manual_seed(1234)   # dropout masks (training mode) are part of the function under test
                 r = getattr(m, result)(xv, cv) if cv is not None else getattr(m, result)(xv)
                 r = r if isinstance(r, (tuple, list)) else (r,)
                 tot = 0.0
